@@ -85,7 +85,19 @@ pub enum Link {
     Ethernet,
     /// BSD loopback / NULL: 4-byte family header (little-endian 2 = IPv4, 0x1e / 0x18 / 0x1c = IPv6)
     Null(u8),
+    /// Ethernet with the given destination + source MAC addresses
+    EthernetMacs([u8; 12]),
 }
+/// MAC address pairs that another framing would also accept: a raw IPv4 / IPv6 header, a NULL/loopback header of family
+/// 1e (+IPv4, +IPv6), 02, 18. Only the order in which a frame parser tries the framings tells such frames apart.
+pub const AMBIGUOUS_MACS: [(&str, [u8; 12]); 6] = [
+    ("macs-like-ipv4-header", [0x45, 0, 0, 0x28, 0, 0, 0x40, 0, 0x40, 0x06, 0, 0]),
+    ("macs-like-ipv6-header", [0x60, 0, 0, 0, 0, 0x14, 0x06, 0x40, 0x20, 0x01, 0, 0]),
+    ("macs-like-loopback-1e-then-ipv4", [0x1e, 0, 0x5e, 0x12, 0x45, 0x01, 0x02, 0, 0, 0x06, 0, 0x01]),
+    ("macs-like-loopback-1e-then-ipv6", [0x1e, 0, 0, 0, 0x60, 0x01, 0x02, 0, 0, 0, 0x06, 0x01]),
+    ("macs-like-loopback-02", [0x02, 0, 0, 0, 0x45, 0x00, 0x00, 0x28, 0, 0, 0x40, 0x00]),
+    ("macs-like-loopback-18", [0x18, 0, 0, 0, 0x60, 0x00, 0x00, 0x00, 0, 0x14, 0x06, 0x40]),
+];
 pub fn frame(link: Link, ip: &[u8]) -> Vec<u8> {
     match link {
         Link::RawIp => ip.to_vec(),
@@ -99,6 +111,11 @@ pub fn frame(link: Link, ip: &[u8]) -> Vec<u8> {
         Link::Null(fam) => {
             let mut f = vec![fam, 0, 0, 0];
             f.extend_from_slice(ip);
+            f
+        }
+        Link::EthernetMacs(m) => {
+            let mut f = frame(Link::Ethernet, ip);
+            f[..12].copy_from_slice(&m);
             f
         }
     }
